@@ -32,6 +32,11 @@ lp_id_t n_lps_node;
 bool lp_initialized;
 #endif
 
+#ifdef ROOTSIM_VERIF
+/// Verification hook: when set, lp_global_init() and lp_init() only compute the ownership ranges
+bool verif_lp_ranges_only;
+#endif
+
 /**
  * @brief Compute the first index of a partition in a linear space of indexes
  * @param part_id the id of the requested partition
@@ -62,8 +67,15 @@ void lp_global_init(void)
 	lid_node_first = partition_start(nid, n_nodes, lid_to_nid, 0, global_config.lps);
 	n_lps_node = partition_start(nid + 1, n_nodes, lid_to_nid, 0, global_config.lps) - lid_node_first;
 
+#ifdef ROOTSIM_VERIF
+	if(verif_lp_ranges_only)
+		goto verif_skip_alloc;
+#endif
 	lps = mm_alloc(sizeof(*lps) * n_lps_node);
 	lps -= lid_node_first;
+#ifdef ROOTSIM_VERIF
+verif_skip_alloc:
+#endif
 
 	if(n_lps_node < global_config.n_threads) {
 		logger(LOG_WARN, "The simulation will run with %u threads instead of the requested %u", n_lps_node,
@@ -88,6 +100,10 @@ void lp_init(void)
 {
 	lid_thread_first = partition_start(rid, global_config.n_threads, lid_to_rid, lid_node_first, n_lps_node);
 	lid_thread_end = partition_start(rid + 1, global_config.n_threads, lid_to_rid, lid_node_first, n_lps_node);
+#ifdef ROOTSIM_VERIF
+	if(verif_lp_ranges_only)
+		return;
+#endif
 
 	for(uint64_t i = lid_thread_first; i < lid_thread_end; ++i) {
 		struct lp_ctx *lp = &lps[i];
